@@ -81,7 +81,14 @@ def agree(case, out, res):
         return None if out.startswith('err') else 'impl raised %s (%s), model %s' % (res['err'], res.get('msg'), out[:80])
     if not out.startswith('ok '):
         return 'model %s, impl returned' % out[:80]
-    return pfile.diff_obs_numeric(out[3:], res['obs'])
+    a, b = pfile.parse_obs(out[3:]), pfile.parse_obs(res['obs'])
+    # out of domain: an int32 variable whose exact result does not fit its declared storage type
+    for v in case['spec']['vars']:
+        if v['dtype'] == 'i' and v['name'] in a['vars'] and v['name'] in b['vars']:
+            cells = a['vars'][v['name']]['cells']
+            if any(c not in ('_', '-') and abs(Fraction(c)) >= 2 ** 31 for c in cells.split(',')):
+                a['vars'][v['name']]['cells'] = b['vars'][v['name']]['cells'] = '-'
+    return pfile.diff_parsed_numeric(a, b)
 
 
 def oracle(case, res):
@@ -126,6 +133,8 @@ def oracle(case, res):
         d2 = np.ma.getdata(arr).ravel().astype('d')
         if v['dtype'] == 'i' and touched:
             d2 = np.trunc(d2)
+            if np.any(np.abs(d2[~m2]) >= 2 ** 31):
+                continue        # out of domain: the result does not fit the declared int32 storage
         cells = g['cells'].split(',') if g['cells'] != '-' else []
         if len(cells) != d2.size:
             return 'variable %s has %d cells, the reduction along the named axes gives %d' % (v['name'], len(cells), d2.size)
